@@ -5,4 +5,4 @@ out=seeded/RESULTS.txt; : > $out.tmp
 ls -d seeded/C*/ | xargs -P 4 -I{} sh -c 'tools/seeded.sh {} > /tmp/seedmatrix_$(basename {}).log 2>&1'
 for d in seeded/C*/; do n=$(basename $d); cat /tmp/seedmatrix_$n.log | cut -c1-330 >> $out.tmp; rm -f /tmp/seedmatrix_$n.log; done
 mv $out.tmp $out
-grep -c "exit=1" $out
+grep -c "check C.. exit=1" $out
